@@ -157,4 +157,41 @@ theorem skel_UserMap_LoadAuthenticatedEmailsFile_ok : skel_UserMap_LoadAuthentic
   "strings.TrimSpace",
   "atomic.StorePointer"] : List String) := rfl
 
+theorem skel_WatchFileForUpdates_ok : skel_WatchFileForUpdates = ([
+  "filepath.Clean",
+  "fsnotify.NewWatcher",
+  "if err != nil",
+  "return fmt.Errorf(\"failed to create watcher for '%s': %s\", filename",
+  "fmt.Errorf",
+  "func{",
+  "defer",
+  "for",
+  "return",
+  "filterEvent",
+  "logger.Errorf",
+  "if err != nil",
+  "watcher.Add",
+  "return fmt.Errorf(\"failed to add '%s' to watcher: %v\", filename, er",
+  "fmt.Errorf",
+  "return nil"] : List String) := rfl
+
+theorem skel_filterEvent_ok : skel_filterEvent = ([
+  "filepath.Clean",
+  "case event.Op&fsnotify.Remove != 0",
+  "WaitForReplacement",
+  "action",
+  "case event.Op&(fsnotify.Create|fsnotify.Write) != 0",
+  "action"] : List String) := rfl
+
+theorem skel_WaitForReplacement_ok : skel_WaitForReplacement = ([
+  "if op&fsnotify.Chmod != 0",
+  "time.Sleep",
+  "for",
+  "if err == nil",
+  "os.Stat",
+  "if err == nil",
+  "watcher.Add",
+  "return",
+  "time.Sleep"] : List String) := rfl
+
 end O2P.Expect.C08
